@@ -55,6 +55,13 @@ func runC06(c *Ctx) {
 	c.c06MissingSourceFirst()
 	c.c06RelativeContainment()
 	c.c06MoveBetweenKeepsItsSource()
+	// Z16: hash — "the values returned … are those of the reference model": the digest of a file is the digest of its bytes,
+	// whatever they are. The file hasher streams the handle it opened into the hasher (the obligation C20/H4): reading the
+	// content through ReadFile first refuses empty files ('empty: no bytes were read').
+	c.rule("Z16", "file hashing opens the requested path and streams that handle into the hasher (the obligation C20/H4): no detour through a read helper that refuses some contents", 3)
+	c.ruleAlias = map[string]string{"H4": "Z16"}
+	c.c20FileHash()
+	c.ruleAlias = nil
 }
 
 // c06Overlap: "a copy never changes its source, also when source and destination overlap" / "a call terminates".
